@@ -12,7 +12,7 @@ exact (`Rat`)
 `pv told… | tnew…`                  → `_find_closest_previous_times`
 `cls told… | tnew…` / `pvs …`       → the numba (sequential) variants, or `index-error`
 `rlen ln p q`                       → length of `resample`'s output
-`mkt sr | told…`                    → `_mk_initial_tnew`: `tnew…|tp…|align|delt` or `raises`
+`mkt sr | told…`                    → `_mk_initial_tnew`: `tnew…|tp…|align|delt|mismatch` or `raises`
 `tn t0 t1 ln p q`                   → the returned positions `tnew`
 `rcq ext | FLin | FUin | P | FL | FU` → `rescaleCore`:  `psd…|ms…|msv`
 `rfq ext | P | F | freq`            → `rescaleFreq` (linear scales only, else `nonlinear`):
@@ -20,7 +20,9 @@ exact (`Rat`)
 numeric (`Float`)
 `area f p f p …`                    → `psd.area`
 `ilog x… | f p f p …` / `ilin …`    → `psd.interp(linear=False|True)`
-`edges c…`                          → `_get_fl_fu`: `FL…|FU…`
+`edges c…`                          → `_get_fl_fu`: `FL…|FU…|lin` (`lin` = 1 when the linear branch was taken)
+`inedges c…`                        → edges of the input scale (`np.all(Df == Df[0])` first): `FL…|FU…|exact`
+`edgesq c…` / `inedgesq c…`         → the same at `Rat` (linear branch only, else `nonlinear`)
 `rcf …` / `rff …`                   → as `rcq` / `rfq` at `Float`
 `oct exact trim | n fr0 e [anchor]`   → `get_freq_oct`: `F…|FL…|FU…` or `value-error` (trim: o c i)
 `fir p q pts | w…`                  → FIR taps
@@ -101,7 +103,7 @@ def answer (line : String) : String :=
     | [["mkt", sr], told] => do
         let sr ← parseRat sr; let told ← parseRats told
         match Fixtime.mkInitialTnew told sr with
-        | some r => pure s!"{fmtRats r.tnew}|{fmtNats r.tp}|{if r.align then 1 else 0}|{fmtRat r.delt}"
+        | some r => pure s!"{fmtRats r.tnew}|{fmtNats r.tp}|{if r.align then 1 else 0}|{fmtRat r.delt}|{if r.mismatch then 1 else 0}"
         | none => pure "raises"
     | [["rlen", ln, p, q]] => do
         let ln ← ln.toNat?; let p ← p.toNat?; let q ← q.toNat?
@@ -136,7 +138,21 @@ def answer (line : String) : String :=
     | [("edges" :: c)] => do
         let c ← parseFs c
         let (l, u) := Psd.getFlFu c
-        pure s!"{fmtFs l}|{fmtFs u}"
+        pure s!"{fmtFs l}|{fmtFs u}|{if Psd.isLinTol c then 1 else 0}"
+    | [("inedges" :: c)] => do
+        let c ← parseFs c
+        let (l, u) := Psd.inEdges c
+        pure s!"{fmtFs l}|{fmtFs u}|{if Psd.isLinExact c then 1 else 0}"
+    | [("edgesq" :: c)] => do
+        let c ← parseRats c
+        if !(Psd.isLinTol c) then pure "nonlinear" else
+        let (l, u) := Psd.getFlFu c
+        pure s!"{fmtRats l}|{fmtRats u}"
+    | [("inedgesq" :: c)] => do
+        let c ← parseRats c
+        if !(Psd.isLinExact c || Psd.isLinTol c) then pure "nonlinear" else
+        let (l, u) := Psd.inEdges c
+        pure s!"{fmtRats l}|{fmtRats u}"
     | [["rcf", e], a, b, c, d, f] => do
         let e ← parseBool e
         let a ← parseFs a; let b ← parseFs b; let c ← parseFs c
